@@ -207,6 +207,15 @@ func TestVerifC18(t *testing.T) {
 			}
 			return
 		}
+		if c.Index%25 == 11 {
+			// one peer whose transport stops taking notifications, the others healthy
+			spec := genC18Stuck(c.R)
+			c.SetSpec(spec)
+			if c.Bubble("", func() { runC18Stuck(c, spec) }) {
+				decideC18Stuck(c, spec)
+			}
+			return
+		}
 		if c.Index%25 == 7 {
 			// a raw legacy peer whose initialize names a version other than the one that is negotiated
 			spec := genC18RawLegacy(c.R)
